@@ -5,7 +5,7 @@
 set -eu
 HERE="$(cd "$(dirname "${BASH_SOURCE[0]}")/.." && pwd)"
 P="$1"; NAME="$2"; FILE="$3"; OLD="$4"; NEW="$5"
-WT="${MUT_WT:-/tmp/ommx-mut/wt}"
+WT="${MKMUT_WT:-/tmp/ommx-mut/mk}"
 HEAD="$(git -C /repo rev-parse HEAD)"
 if [ ! -e "$WT/.git" ]; then
   mkdir -p "$(dirname "$WT")"; git -C /repo worktree prune
